@@ -9,10 +9,12 @@ TraceInit == l = 1 /\ CInit
 TReset == Is("ConReset") /\ CReset
 TCall  == Is("Call") /\ Call(IF Ev.op = "send" THEN [op |-> "send", dg |-> Ev.dg, len |-> Ev.len, sent |-> FALSE]
                               ELSE IF Ev.op = "write" THEN [op |-> "write", start |-> Ev.start, len |-> Ev.len, done |-> 0]
+                              ELSE IF Ev.op = "fmt" THEN [op |-> "fmt", bytes |-> Ev.bytes, done |-> 0]
                               ELSE Ev)
 TRet   == Is("Ret") /\ Ev.ok /\ Ret(Ev)
 TFill  == Is("DevFill") /\ DevFill(Ev.start, Ev.k)
-TTx    == Is("DevTx") /\ IF call.op = "write" THEN DevTxW(Ev.first, Ev.len, Ev.affine, Ev.rl, Ev.wl)
+TTx    == Is("DevTx") /\ IF call.op = "fmt" THEN Ev.len = Len(Ev.bytes) /\ DevTxF(Ev.bytes, Ev.rl, Ev.wl)
+                            ELSE IF call.op = "write" THEN DevTxW(Ev.first, Ev.len, Ev.affine, Ev.rl, Ev.wl)
                             ELSE DevTx(Ev.dg, Ev.len, Ev.rl, Ev.wl)
 TQAdd  == Is("QAdd") /\ IF Ev.q = 0 THEN Post ELSE UNCHANGED cvars
 TQPop  == Is("QPop") /\ IF Ev.q = 0 THEN Pickup(Ev.len) ELSE UNCHANGED cvars
